@@ -54,6 +54,14 @@ def pckey(o):
 
 
 def structural(ctx, chk, tier):
+    alias_forwarding(ctx, chk)
+    flip_parity(ctx, chk)
+    chk.floor("R02.2", 72, "6 metrics x 4 configurations x 3 methods")
+    # ---------------- R02.3 interpolation core
+    core(ctx, chk)
+
+
+def alias_forwarding(ctx, chk):
     ev = ctx.ev
     # ---------------- R02.1a aliases forward target and method
     for alias, tgt in ALIASES.items():
@@ -83,10 +91,6 @@ def structural(ctx, chk, tier):
             chk.hold("R02.1", "default-method:" + name, "default interpolation is linear", nontrivial=False)
         else:
             chk.violation("R02.1", q, "default-method", sorted(ms), "'linear'", ctx.where(q))
-    flip_parity(ctx, chk)
-    chk.floor("R02.2", 72, "6 metrics x 4 configurations x 3 methods")
-    # ---------------- R02.3 interpolation core
-    core(ctx, chk)
 
 
 def flip_parity(ctx, chk, metrics=METRICS):
